@@ -100,6 +100,40 @@ def find(d: Def):
                     break
             if hit is not None:
                 out.append((loop, st, arr, hit))
+        # the mirrored recurrence: row i *writes the slot of its parent* (`keep[pid[i]] = ...`) depending on its own slot of the same array
+        # (`if keep[i]`), i.e. information is pushed up one level per row in storage order: complete only if every child is visited before
+        # its parent is read, which a single sweep guarantees only when the numbering is sorted
+        for st in ast.walk(loop):
+            tgt = None
+            if isinstance(st, ast.Assign) and len(st.targets) == 1:
+                tgt, val = st.targets[0], st.value
+            elif isinstance(st, ast.AugAssign):
+                tgt, val = st.target, st.value
+            if not (isinstance(tgt, ast.Subscript) and isinstance(tgt.value, ast.Name)):
+                continue
+            pnames = set(parent_names)
+            for a in ast.walk(loop):
+                if isinstance(a, ast.Assign) and len(a.targets) == 1 and isinstance(a.targets[0], ast.Name) \
+                        and _mentions_parent(a.value, parent_names) and not isinstance(a.value, ast.Compare) \
+                        and ({n.id for n in ast.walk(a.value) if isinstance(n, ast.Name)} & row_vars):
+                    pnames.add(a.targets[0].id)
+            sl_names = {n.id for n in ast.walk(tgt.slice) if isinstance(n, ast.Name)}
+            parent_slot = (_mentions_parent(tgt.slice, set()) and bool(sl_names & row_vars)) or bool(sl_names & pnames)
+            if not parent_slot:
+                continue
+            arr = tgt.value.id
+            hit = None
+            for dep in [val] + _guards(loop, st):
+                for rd in ast.walk(dep):
+                    if isinstance(rd, ast.Subscript) and isinstance(rd.value, ast.Name) and rd.value.id == arr:
+                        rn = {n.id for n in ast.walk(rd.slice) if isinstance(n, ast.Name)}
+                        if (rn & row_vars) and not _mentions_parent(rd.slice, pnames):
+                            hit = rd
+                            break
+                if hit is not None:
+                    break
+            if hit is not None and not any(o[1] is st for o in out):
+                out.append((loop, st, arr, hit))
     return out
 
 
@@ -144,7 +178,8 @@ def check(ctx, col, rule: str, modules: tuple, what: str = "the scanned modules"
     here = os.path.dirname(os.path.dirname(os.path.abspath(__file__)))
     fx = Repo(here, pkg="fixtures")
     found = {d.name: len(find(d)) for d in fx.all_defs() if d.module.name.endswith("orderdep_positive")}
-    ok = found.get("path_length_forward") == 1 and found.get("mark_forward") == 1 and found.get("not_a_recurrence") == 0
+    ok = found.get("path_length_forward") == 1 and found.get("mark_forward") == 1 and found.get("not_a_recurrence") == 0 \
+        and found.get("keep_backward") == 1 and found.get("count_children") == 0
     col.check(ok, rule, "sa.fixtures.orderdep_positive", "sa/fixtures/orderdep_positive.py:1",
               f"lint recognises its kept positive examples ({n_defs} defs of {what} scanned, {hits} hit(s))",
               str(found), f"fixture results {found}: the lint no longer recognises its positive examples", stmt="fixture")
